@@ -157,6 +157,12 @@ func init() {
 		}
 		e["cm"] = sback(mp["k"], err)
 		e["ps"] = sback(size.DefaultParser(n.String(), 0))
+		// one read buffer: this size in bytes, then refilled with its neighbour (last bit flipped: the
+		// same number of digits) and parsed again
+		r1, err := size.DefaultParser(reused([]byte(strconv.FormatUint(uint64(n), 10))), 0)
+		e["reuse1"] = sback(r1, err)
+		r2, err := size.DefaultParser(reused([]byte(strconv.FormatUint(uint64(n)^1, 10))), 0)
+		e["reuse2"] = sback(r2, err)
 		e["pp"] = sback(size.DefaultParser([]byte(n.PrettyString()), 0))
 		return e
 	}
